@@ -130,61 +130,51 @@ def check_equality(ctx, lib):
     if b is None:
         return
     n = 0
+    from ..leaf import is_payload, pair_walker
+    # every pair of kinds (49 cases): how the kinds are inspected does not matter (get_type comparison + accessors, or a match on
+    # the pair of variants)
     for k in KINDS:
-        for same in (0, 1):
-            def extra_atom(t):
-                return None
-
-            w = kind_walker(b, lib, k)
-            base_call = w.call
-
-            def call(t, argvals, same=same, base_call=base_call):
-                if t[1] in ("std::cmp::PartialEq::ne", "std::cmp::PartialEq::eq") and \
-                        all(x[0] == "call" and x[1] == "variable::Variable::get_type" for a in t[2] for x in a):
-                    args = [set(a) for a in t[2]]
-                    who = [next(iter(next(iter(a))[2][0])) for a in args]
-                    if set(who) == {("param", 1), ("param", 2)}:
-                        return (1 - same) if t[1].endswith("::ne") else same
-                return base_call(t, argvals)
-
-            w.call = call
+        for k2 in KINDS:
+            w = pair_walker(b, lib, k, k2)
             try:
                 paths = w.walk()
             except Undecided as e:
-                ctx.bad(rule, f"{k}/{'same' if same else 'different'}", f"eq undecidable: {e}", b.span)
+                ctx.bad(rule, f"{k}/{k2}", f"eq undecidable: {e}", b.span)
                 continue
             outs = set()
             for path, leaf in paths:
                 for t in w.result_on_path(path):
                     outs.add(classify_eq(t, k))
             n += 1
-            if not same:
-                want = {"false"}
+            if k != k2:
+                want = [{"false"}]
             elif k == "Null":
-                want = {"true"}
+                want = [{"true"}]
             elif k == "Number":
-                want = {"float_eq(self as f64, other as f64)", "false"}
+                want = [{"float_eq(self as f64, other as f64)", "false"}, {"float_eq(self as f64, other as f64)"}]
             else:
-                want = {"payload == other's same-kind payload"}
-            ctx.check(outs == want, rule, f"{k}/{'same-type' if same else 'different-type'}",
-                      f"{k} == value of {'the same' if same else 'a different'} type: {sorted(outs)} (specified {sorted(want)})", b.span)
-    ctx.floor(rule, n, 14, "(kind, same/different type) cases walked")
+                want = [{"payload == other's same-kind payload"}]
+            if k == k2:
+                ctx.check(outs in want, rule, f"{k}/same-type", f"{k} == {k}: {sorted(outs)} (specified {sorted(want[0])})", b.span)
+            elif outs not in want:
+                ctx.bad(rule, f"{k}/different-type", f"{k} == {k2} (different types): {sorted(outs)} (specified ['false'])", b.span)
+        ctx.check(True, rule, f"{k}/different-type-cases", f"{k} against the six other kinds walked")
+    ctx.floor(rule, n, 49, "(kind, kind) cases walked")
 
 
 def classify_eq(t, k):
+    from ..leaf import is_payload
     if t == ("const", 0):
         return "false"
     if t == ("const", 1):
         return "true"
-    if t[0] == "call" and t[1] == "variable::float_eq":
+    if t[0] == "call" and t[1] == "variable::float_eq" and len(t[2]) == 2:
         a, b2 = set(t[2][0]), set(t[2][1])
-        if all(x[0] == "call" and x[1] == "serde_json::Number::as_f64" and set(x[2][0]) == {("field", ("param", 1), "Number.0")} for x in a) and \
-                all(x == ("view", "number", ("param", 2)) for x in b2):
+        if a and b2 and all(is_payload(x, 1, "Number") for x in a) and all(is_payload(x, 2, "Number") for x in b2):
             return "float_eq(self as f64, other as f64)"
-    if t[0] == "call" and t[1] == "std::cmp::PartialEq::eq":
+    if t[0] == "call" and t[1] == "std::cmp::PartialEq::eq" and len(t[2]) == 2:
         a, b2 = set(t[2][0]), set(t[2][1])
-        if all(x[0] == "agg" and x[1] == "std::option::Option::Some" and set(x[2][0]) == {("field", ("param", 1), f"{k}.0")} for x in a) and \
-                all(x[0] == "view" and VIEW_KIND.get(x[1]) == k and x[2] == ("param", 2) for x in b2):
+        if a and b2 and all(is_payload(x, 1, k) for x in a) and all(is_payload(x, 2, k) for x in b2):
             return "payload == other's same-kind payload"
     return "?" + fmt_terms([t])
 
